@@ -79,7 +79,7 @@ var vxErrHandled = errors.New("handled")
 func VxC39() {
 	NC := vxParam("NC")         // clients
 	withClose := vxParam("CLOSE") == 1
-	incoming := vxParam("INC")  // 0: none, 1: one incoming call handled synchronously, 2: through ErrAsyncResponse + Respond
+	incoming := vxParam("INC")  // 0: none, 1: one incoming call handled synchronously, 2: through ErrAsyncResponse + Respond, 3: as 2 and the peer sends a second call with the same ID while the first is in flight
 	peerMode := vxConcrete(vxIntRange(0, vxParam("PEER"))) // 0 answer, 1 answer twice, 2 unknown ID first, 3 disconnect instead
 	vxSchedReset()
 
@@ -87,14 +87,14 @@ func VxC39() {
 	handlerStarted, handlerDone := 0, 0
 	internalErrs := 0
 	var conn *Connection
-	asyncCh := make(chan ID, 1)
+	asyncCh := make(chan ID, 2)
 	binder := BinderFunc(func(ctx context.Context, c *Connection) ConnectionOptions {
 		return ConnectionOptions{
 			Framer: vxFramer{w},
 			Handler: HandlerFunc(func(ctx context.Context, req *Request) (any, error) {
 				handlerStarted++
 				defer func() { handlerDone++ }()
-				if incoming == 2 && req.IsCall() {
+				if incoming >= 2 && req.IsCall() {
 					asyncCh <- req.ID
 					return nil, ErrAsyncResponse
 				}
@@ -122,6 +122,14 @@ func VxC39() {
 	// the peer: answers every call it receives according to peerMode
 	go func() {
 		if incoming > 0 {
+			select {
+			case w.in <- &Request{ID: StringID("in"), Method: "ping"}:
+			case <-w.closed:
+				return
+			}
+		}
+		if incoming == 3 {
+			// the peer reuses the ID of its call while that call is still in flight
 			select {
 			case w.in <- &Request{ID: StringID("in"), Method: "ping"}:
 			case <-w.closed:
@@ -162,11 +170,12 @@ func VxC39() {
 		}
 	}()
 	responded := false
-	if incoming == 2 {
+	if incoming >= 2 {
 		go func() { // the asynchronous responder
-			id := <-asyncCh
-			conn.Respond(id, nil, vxErrHandled)
-			responded = true
+			for id := range asyncCh { // every call the handler deferred gets its asynchronous response
+				conn.Respond(id, nil, vxErrHandled)
+				responded = true
+			}
 		}()
 	}
 	closeReturned := false
@@ -193,7 +202,14 @@ func VxC39() {
 			nresp++
 		}
 	}
-	vxAssert(nresp <= 1, "an incoming call was answered more than once")
+	sentIn := 0 // incoming calls the peer sent (a reused ID is a new call once the first one was answered)
+	if incoming > 0 {
+		sentIn = 1
+	}
+	if incoming == 3 {
+		sentIn = 2
+	}
+	vxAssert(nresp <= sentIn, "an incoming call was answered more than once")
 	if withClose {
 		vxAssert(closeReturned, "Close did not return although nothing is in flight any more")
 		vxAssert(handlersAtClose == 0, "Close returned while a handler was still running")
